@@ -587,7 +587,7 @@ class VectorCross(VectorExpr):
             a, b = lhs.args
             c, d = rhs.args
 
-            return VectorDot(a, b) * VectorDot(c, d) - VectorDot(b, c) * VectorDot(a, d)
+            return VectorDot(a, c) * VectorDot(b, d) - VectorDot(b, c) * VectorDot(a, d)
 
         if lhs_is_cross and not rhs_is_cross:
             a, b = lhs.args
